@@ -26,7 +26,8 @@ type ovCase struct {
 	Listing []int      `json:"listing"`
 	Styles  []string   `json:"styles"`
 	Unary   bool       `json:"unary"`
-	Naming  string     `json:"naming"`  // plain | under: identifiers contain an underscore
+	Naming  string     `json:"naming"`  // plain | under (all names contain "_") | recvunder (receiver type only)
+	DeclPos string     `json:"declpos"` // before | after: named candidates declared before / after the overload decl
 	GopoSep string     `json:"gopoSep"` // separator the model expects in the Gopo_ constant's name
 	Table   []struct {
 		Kind string `json:"kind"`
@@ -86,6 +87,12 @@ func params(tuple []string, idx int, skipFirst bool) string {
 // styleClass abstracts the style vector for signatures.
 func (c *ovCase) styleClass() string {
 	set := map[string]bool{}
+	if c.DeclPos == "after" {
+		set["declared-after"] = true
+	}
+	if c.Naming == "under" || c.Naming == "recvunder" {
+		set[c.Naming] = true
+	}
 	for _, s := range c.Styles {
 		set[s] = true
 	}
@@ -110,6 +117,8 @@ func (c *ovCase) render(idx int, op string) string {
 		styleOf[id] = c.Styles[j]
 	}
 	body := func(id int) string { return fmt.Sprintf("echo \"=\", %d", id) }
+	head := sb.String() // type declarations
+	sb.Reset()
 	// declared (non-literal) candidates, in canonical order
 	for id := 1; id <= n; id++ {
 		tup := c.Cands[id-1]
@@ -128,6 +137,8 @@ func (c *ovCase) render(idx int, op string) string {
 			}
 		}
 	}
+	candDecls := sb.String()
+	sb.Reset()
 	// the overload declaration, in LISTING order
 	switch c.Fam {
 	case "func":
@@ -159,6 +170,14 @@ func (c *ovCase) render(idx int, op string) string {
 		}
 	}
 	w(")\n")
+	ovDecl := sb.String()
+	sb.Reset()
+	sb.WriteString(head)
+	if c.DeclPos == "after" {
+		sb.WriteString(ovDecl + candDecls)
+	} else {
+		sb.WriteString(candDecls + ovDecl)
+	}
 	if c.Unary {
 		w("func %s(a foo%d) (ret foo%d) {\n\t%s\n\treturn\n}\n", op, idx, idx, body(n+1))
 	}
@@ -205,6 +224,10 @@ func (c *ovCase) render(idx int, op string) string {
 		re := regexp.MustCompile(fmt.Sprintf(`\b(foo|f|T|m|o)(%d)((?:n|f)\d+)?\b`, idx))
 		return re.ReplaceAllString(sb.String(), "${1}_${2}${3}")
 	}
+	if c.Naming == "recvunder" { // only the type names: T3 -> T_3, foo3 -> foo_3
+		re := regexp.MustCompile(fmt.Sprintf(`\b(foo|T)(%d)\b`, idx))
+		return re.ReplaceAllString(sb.String(), "${1}_${2}")
+	}
 	return sb.String()
 }
 
@@ -248,13 +271,13 @@ func runOverload() {
 		c := &cases[i]
 		u := units[i]
 		n := len(c.Cands)
-		in := map[string]any{"fam": c.Fam, "cands": c.Cands, "listing": c.Listing, "styles": c.Styles, "unary": c.Unary, "op": ops[i], "naming": c.Naming}
+		in := map[string]any{"fam": c.Fam, "cands": c.Cands, "listing": c.Listing, "styles": c.Styles, "unary": c.Unary, "op": ops[i], "naming": c.Naming, "declpos": c.DeclPos}
 		arity := ""
 		for _, t := range c.Cands {
 			arity += fmt.Sprint(len(t))
 		}
 		res := hlib.Result{Idx: i, V: "ok", Input: in,
-			NT: fmt.Sprintf("%s/%s/%v/%s/u%v/%s", c.Fam, strings.Join(c.Styles, ","), c.Listing, arity, c.Unary, c.Naming)}
+			NT: fmt.Sprintf("%s/%s/%v/%s/u%v/%s", c.Fam, strings.Join(c.Styles, ","), c.Listing, arity, c.Unary, c.Naming+"/"+c.DeclPos)}
 		cls := c.Fam + ":" + c.styleClass()
 		switch {
 		case len(c.Want) != n+b2i(c.Unary):
